@@ -69,6 +69,8 @@ ALL = [
         tr(tc(p(r('«3»x')), '<w:sdt><w:sdtPr/><w:sdtContent>' + p(r('«4»outer control')) + '<w:sdt><w:sdtPr/><w:sdtContent>' + p(r('«5»inner control')) + '</w:sdtContent></w:sdt></w:sdtContent></w:sdt>', pr='<w:vMerge/>'),
            tc(p(r('«6»b2'))))))),
     ('P31-equation-text-with-markup-characters', ['C07', 'C19'], lambda: docx(p(r('«1»x&lt;y '), '<m:oMath><m:r><m:t>a&lt;b&amp;c</m:t></m:r><m:r><m:t>&amp;lt;</m:t></m:r></m:oMath>', r(' «2»z', '<w:b/>')))),
+    ('P32-comment-on-part-of-a-link', ['C12', 'C13'], lambda: docx(p(r('«1»before '), link('r:id="rId9"', r('«2»a '), '<w:commentRangeStart w:id="0"/>', r('«3»linked'), '<w:commentRangeEnd w:id="0"/>'), r('«4» after'),
+        '<w:commentRangeStart w:id="1"/>', r('«5»x'), link('r:id="rId9"', r('«6»l2 '), '<w:commentRangeEnd w:id="1"/>', r('«7»more'))), docrels=LINK, comments=COM(0) + COM(1, 'two'))),
     # constructs the line-coverage measurement (harness/tools/cover.py) showed no generated case reached
     ('cov-math-text-outside-omath', ['C13', 'C01', 'C03', 'C07'], lambda: docx(p(r('«1»a'), '<m:r><m:t>«2»x&lt;y</m:t></m:r>', r('«3»b', '<w:b/>')))),
     ('cov-two-comments-parts', ['C12', 'C13'], lambda: docx(p('<w:commentRangeStart w:id="0"/>', r('«1»a'), '<w:commentRangeEnd w:id="0"/>', r('«2»b')), comments=COM(0, 'first'),
